@@ -130,8 +130,13 @@ def generate(seed: int, tier: str) -> Dict[str, Any]:
     raw.setdefault("t2", {})["sim_threshold"] = -1.0
     raw["t2"].pop("tiers", None)
     raw["graph"] = {"enabled": True, "coactivation_threshold": 0.0,
-                    "merge": {"enabled": True, "min_size": 2, "min_avg_w": 0.0}, "split": {"enabled": True, "weak_edge_thresh": 0.0},
+                    "merge": {"enabled": True, "min_size": 2, "min_avg_w": 0.3}, "split": {"enabled": True, "weak_edge_thresh": 0.3},
                     "promotion": {"enabled": True}}
+    if world.get("gel") is not None:
+        # a component that splits: two strong pairs joined by a weak bridge (so the split pass has a candidate)
+        ge = world["gel"]["edges"]
+        for a, b, w in (("s1", "s2", 0.9), ("s3", "s4", 0.9), ("s2", "s3", 0.05)):
+            ge["%s→%s" % (a, b)] = {"id": "%s→%s" % (a, b), "src": a, "dst": b, "weight": w, "rel": "coact", "updated_at": None, "attrs": {}}
     raw["t2"]["hybrid"] = {"enabled": True, "edge_threshold": 0.0, "lambda_graph": 0.9}
     raw["t2"]["quality"] = {"enabled": True, "lexical": {"enabled": True}, "fusion": {"enabled": True, "alpha_semantic": 0.4},
                             "mmr": {"enabled": True, "lambda": 0.4}}
